@@ -9,6 +9,8 @@ def main(c):
     exe = g.build(c, "accel")
     c.add_mc("HashStream (block 8, every update partition of every message of length <= 20: buffering and padding)",
              vlib.tlc(g.SD, "HashStream", "HashStreamMC.cfg", workers=4, timeout=600, coverage=True))
+    c.add_mc("Sha256RefMC (FIPS 180-4 in plain TLA+ = JDK SHA-256 on every length 0..200 x 3 patterns and the FIPS examples)",
+             vlib.tlc(g.SD, "Sha256RefMC", workers=2, timeout=600))
     c.cov["exhaustive"] = True
     lines = g.hash_lines(rnd, c.pick(600, 30000)) + g.hmac_lines(rnd, c.pick(300, 10000)) + g.pbkdf2_lines(rnd, c.pick(50, 2000)) + g.crc_lines(rnd, c.pick(300, 10000))
     c.cov["calls"] = len(lines)
@@ -18,4 +20,4 @@ def main(c):
                      "(salt length incl. 59/60/61, c <= 20, dkLen in {1,31,32,33,64,65,100}); CRC32C alignments 0..15 x lengths 0..40; every call validated by TLC: "
                      "digest = the specified function (JDK primitive), streaming = one-shot, byte counts, HMAC / PBKDF2 / CRC per their TLA+ definitions; "
                      "an execution = 1500 calls; distinct = SHA-256 of program")
-    c.cov["trusted_base"] = ["TLC", "JDK MessageDigest (SHA-256, SHA-1, MD5 compression)", "gcc ASan/UBSan"]
+    c.cov["trusted_base"] = ["TLC", "JDK MessageDigest (SHA-1, MD5; SHA-256 only beyond 200 bytes, cross-checked against Sha256Ref.tla)", "gcc ASan/UBSan"]
